@@ -12,14 +12,19 @@ from pyvc.npx import X, exact, val, vals, xarr
 from pyvc.symx import AV, Explorer, GhostList, zv
 
 META = {
-    "level_text": "Deductive: (1) the directed right-hand side is proved component-wise for all three flip modes; (2) the "
+    "level_text": "Deductive: (1) the directed right-hand side is proved component-wise for all three flip modes with a TIME-DEPENDENT "
+                  "base field: rhs_dir(s, y) = forward * f(forward * s, y), the field of y(forward*s) - taken from the property "
+                  "('the state the flow had at time -t'), and the drivers are shown to receive exactly that field; (2) the "
                   "time stamps returned by _propagate_dynsys are derived by executing the real _propagate_dynsys and the real "
                   "integrate() wrappers with only the low-level drivers replaced by recorders: times == forward * "
                   "linspace(t0,tf,steps) for fixed, adaptive and symplectic methods; (3) every adaptive integrate() entry "
                   "either rejects a strictly decreasing grid or never hands it to a driver whose loop contract needs t0 < tf "
                   "(the drivers' weakest precondition, derived from their stepping loop); (4) the adaptive stepping loops are "
                   "cut with invariants: t0 <= t <= tf, node lists consistent, a node is appended iff err_norm <= 1 and then t "
-                  "advances by exactly the h used, exit with t == tf.",
+                  "advances by exactly the h used, exit with t == tf; (5) the fixed-step driver on a symbolic NON-UNIFORM grid "
+                  "returns states[n+1] == step(states[n], t_n, t_(n+1) - t_n) (shared with C02); the constant-solution short cut "
+                  "is taken iff the span has zero length; symplectic propagation with a terminal event signs its times alike "
+                  "on the hit and the no-hit path.",
     "level_note": "Not decided: 'forward then backward returns to the start within integration tolerance' for RK schemes "
                   "(accuracy statement; exact for the symplectic sub-maps: C16). The dense-output phase of the adaptive "
                   "drivers (searchsorted + interpolation at exactly t_eval[idx]) is covered by a BOUNDED instance run "
